@@ -1,24 +1,23 @@
-"""Per-property units run by ./check.  See DESIGN.md section 3 for what each does.
+"""Loads the per-property unit files /verif/units/C??.py.
 
+Each unit file defines
+  SPEC = {"level": "exploration", "units": [ ... ]}
+  TEXT = {"technique": ..., "engine": ..., "level_text": ..., "level_note": ...}
 unit keys: name, pkg (package directory in /repo the test is injected into), kind
 (rapid | plain | fuzz), run (test regexp) or fuzz (target name), tiers (default both),
 common / quick / thorough: {checks, shards, race, timeout, env, ntests, fuzztime, workers}.
 """
+import glob
+import importlib.util
+import os
 
-RF = "./common/replayfilter"
-
-CHECKS = {
-    "C11": {
-        "level": "exploration",
-        "units": [
-            {"name": "enum", "pkg": RF, "kind": "plain", "run": "^TestVerifC11Enum$",
-             "quick": {"shards": 8, "timeout": 300}, "thorough": {"shards": 16, "timeout": 1500}},
-            {"name": "machine", "pkg": RF, "kind": "rapid", "run": "^TestVerifC11Machine$",
-             "quick": {"checks": 300, "shards": 2, "timeout": 300},
-             "thorough": {"checks": 3000, "shards": 16, "timeout": 1500}},
-            {"name": "concurrent", "pkg": RF, "kind": "rapid", "run": "^TestVerifC11Concurrent$",
-             "quick": {"checks": 300, "shards": 1, "timeout": 300, "race": True},
-             "thorough": {"checks": 4000, "shards": 8, "timeout": 1500, "race": True}},
-        ],
-    },
-}
+HERE = os.path.dirname(os.path.abspath(__file__))
+CHECKS = {}
+TEXT = {}
+for _f in sorted(glob.glob(os.path.join(HERE, "units", "C[0-9][0-9].py"))):
+    _id = os.path.basename(_f)[:-3]
+    _spec = importlib.util.spec_from_file_location("verif_unit_" + _id, _f)
+    _m = importlib.util.module_from_spec(_spec)
+    _spec.loader.exec_module(_m)
+    CHECKS[_id] = _m.SPEC
+    TEXT[_id] = _m.TEXT
